@@ -554,9 +554,18 @@ def shard_big(ctx: Ctx) -> None:
                 for t in tcs:
                     ks = [rng.choice(logs) for _ in range(t)]
                     us = [sc[rng.choice(names)] if rng.random() < 0.5 else rng.randrange(1, n) for _ in range(t)]
-                    variant = rng.randrange(4)
+                    variant = rng.randrange(5)
                     if variant == 1:
                         us[rng.randrange(t)] = 0
+                    if variant == 4:
+                        # every point finite, every raw scalar truthy, and one or two of them zero in the group: the
+                        # order, a multiple of it, or a byte spelling of zero -- what a dispatch gate reading the raw
+                        # scalars instead of the reduced ones lets through
+                        ks = [k or 1 for k in ks]
+                        us = [u % n or 1 for u in us]
+                        for _ in range(rng.choice([1, 1, 2])):
+                            us[rng.randrange(t)] = rng.choice([n, 2 * n, -n, 7 * n, -3 * n] + ([bytes(ec.n_size), "00" * ec.n_size] if k1 else []))
+                        ctx.stat("multi_mult:truthy-zero-scalar")
                     if variant == 2 and ks[-1]:
                         tot = sum(u * k for u, k in zip(us[:-1], ks[:-1])) % n
                         us[-1] = (-tot * pow(ks[-1], -1, n)) % n
@@ -564,13 +573,14 @@ def shard_big(ctx: Ctx) -> None:
                         ks = [k or 1 for k in ks]
                         us = [u % n or 1 for u in us]  # all terms live: what the bindings serve
                     pts = [pool[k] or (5, 0) for k in ks]
-                    want = rc.mul(sum(u * k for u, k in zip(us, ks)) % n, rc.G)
+                    ui = [u if isinstance(u, int) else int.from_bytes(bytes.fromhex(u) if isinstance(u, str) else u, "big") for u in us]
+                    want = rc.mul(sum(u * k for u, k in zip(ui, ks)) % n, rc.G)
                     o = outcome(multi_mult_var, us, pts, ec)
-                    nz = sum(1 for u in us if u % n)
+                    nz = sum(1 for u in ui if u % n)
                     if o[0] == "raise" or conv(o[1]) != want:
                         ctx.violation(f"big-multi-mult-wrong-point:{'boscoster' if nz >= 56 else 'wnaf'}",
                                       f"{name} multi_mult_var {t} terms [{armtag}] = {o[1]!r}",
-                                      {"curve": name, "scalars": us, "logs": ks, "arm": armtag})
+                                      {"curve": name, "scalars": [repr(u) for u in us], "logs": ks, "arm": armtag})
                     ctx.case("big:multi_mult", (name, tuple(us), tuple(ks), armtag),
                              sample={"curve": name, "terms": t, "nonzero": nz, "arm": armtag})
                 # off-curve refusal
